@@ -79,7 +79,9 @@ def run(chk):
     ccfg = sib.cfgs["cache"]
     res = ccfg.outputs["SEL"].split(".")[0]
     al = sym.cls("Alias")
-    items = Slicer(sym, ccfg.module, ccfg.subject, al).slice(ccfg.func.body)
+    from ..dispatch import try_slice as _ts16
+
+    items = _ts16(chk, "R2", Slicer(sym, ccfg.module, ccfg.subject, al), ccfg.func.body) or []
     cond = next((it for it in items if isinstance(it, Cond) and "uuid_map is not None" in norm(it.test)), None)
     # (statements of the Alias slice that index uuid_map: the body of the `uuid_map is not None` branch when it has that form)
     alias_stmts = list(cond.body) if cond is not None else [st for st, _c in flat(items)]
